@@ -135,6 +135,9 @@ func (g *gatedRun) drain() error {
 	}
 }
 
+// Patient: wait 400 ms instead of 1.5 ms before concluding that a goroutine the model calls blocked is blocked.
+var Patient bool
+
 var gateMu sync.Mutex // one gated run at a time (the hook is a package variable)
 
 // RunSchedule executes one model schedule on a real concurrent Morass and
@@ -298,7 +301,13 @@ func RunSchedule(id int, s Schedule, timeout time.Duration) vt.Ev {
 		}
 		if len(st.Blocked) > 0 {
 			// the model says these goroutines are blocked: give them a moment to prove otherwise
-			time.Sleep(1500 * time.Microsecond)
+			if Patient {
+				// blocked means blocked for as long as nobody moves, not for a moment: a time-out hidden in a
+				// blocking operation would show only now
+				time.Sleep(400 * time.Millisecond)
+			} else {
+				time.Sleep(1500 * time.Microsecond)
+			}
 			if err := g.drain(); err != nil {
 				return fail(i, err)
 			}
@@ -387,6 +396,7 @@ func ReplaySchedules(w *vt.W, path string, timeout time.Duration) (n, bad int) {
 		if err := json.Unmarshal(sc.Bytes(), &s); err != nil {
 			vt.Fatal("schedule %d: %v", n, err)
 		}
+		Patient = n%20 == 7
 		ev := RunSchedule(n, s, timeout)
 		if ev["ok"] != true {
 			// A missed arrival may be scheduling noise on a loaded machine: a
@@ -409,6 +419,10 @@ func ReplaySchedules(w *vt.W, path string, timeout time.Duration) (n, bad int) {
 		}
 		w.Emit(ev)
 		n++
+		if bad >= 5 {
+			// every confirmed divergence costs three time-outs: a handful is enough for a verdict
+			break
+		}
 	}
 	return n, bad
 }
